@@ -37,15 +37,28 @@ async def _inline(func, *args):
     return func(*args)
 
 
+class ReaderSpins(Exception):
+    '''A DB reader keeps retrying: the index refers to transactions it cannot resolve.'''
+
+
+_SPINS = [0]
+
+
 async def _nosleep(*a, **k):
+    _SPINS[0] += 1
+    if _SPINS[0] > 3:
+        _SPINS[0] = 0
+        raise ReaderSpins('limited_history / all_utxos keeps retrying (tx number beyond the stored height)')
     return None
 
 
 def patch_sync():
     '''Symbolic mode: worker-thread hand-offs run inline (no real threads, no suspension).'''
+    import electrumx.server.db as dbmod
+    dbmod.sleep = _nosleep
+    _SPINS[0] = 0
     if symx.native():
         return
-    import electrumx.server.db as dbmod
     import electrumx.server.block_processor as bpmod
     dbmod.run_in_thread = _inline
     bpmod.run_in_thread = _inline
@@ -304,7 +317,7 @@ def expected_history(chain, q):
 
 
 def check_index(sim, label, *, queries=None, check_history=True, check_utxos=True, check_fs=True,
-                check_state=True, check_limits=False, upto=None, sig_override=None):
+                check_state=True, check_limits=False, upto=None, sig_override=None, query_outs=None):
     '''Compare every observable of the real index with the reference chain sim.chain (or its
     first upto+1 blocks).'''
     eng, db = sim.eng, sim.db
@@ -326,7 +339,7 @@ def check_index(sim, label, *, queries=None, check_history=True, check_utxos=Tru
     # script hashes to query: one per distinct hashX class of the scenario + an absent one
     if queries is None:
         queries = []
-        for o in all_outs:
+        for o in (all_outs if query_outs is None else query_outs):
             if not any(bool(o.hashX == q) for q in queries):
                 queries.append(o.hashX)
         absent_q = sim.wrap(bytes(range(1, 12)))
